@@ -120,6 +120,11 @@ var c15Bodies = []string{
 	"<html>", "<HTML lang=\"en\">", "<!DOCTYPE html>", "<!doctype", "<htm", "<!doc", "x<html>", "<Html", "<\xe2\x84\xaatml>", "<!DOCTYPE", "<!doctypes",
 	"a\x00b", "\x01", "x\x1b", "\x7fx", "a\tb", "tab\t", "a\rb", "\x00",
 	"", "", "", "||c.example^", "||d.example^", "0.0.0.0 e.example",
+	// Adblock-style list headers and other lines starting with a bracket
+	"[Adblock Plus 2.0]", "[Adblock Plus 2.0]", "[adblock]", "[Adblock", "[uBlock Origin]", "[x]", "[", "[Adblock Plus 2.0] x",
+	"[ADBLOCK PLUS 3.1]", "[]",
+	// more titles, so that several of them and titles after rules are common
+	"! Title: A", "! Title: B", "! Title: [Adblock Plus 2.0]",
 }
 
 func c15Line(r *rand.Rand) string {
